@@ -41,21 +41,30 @@ theorem runOps_frame (fam : Fam) (d : Dump) (ops : List Op) (fs : FS) (p : Path)
   | nil => rfl
   | cons o r ih => simp only [runOps]; rw [ih, opRun_frame _ _ _ _ _ hp]
 
-theorem crashOps_frame (fam : Fam) (d : Dump) (ops : List Op) (j : Nat) (ins : Option Nat)
-    (fs : FS) (p : Path) (hp : p.fam ≠ fam) : crashOps fam d ops j ins fs p = fs p := by
-  induction ops generalizing fs j with
+theorem settle_frame (fam : Fam) (d : Dump) (f : Nat) (pend : Option Suffix) (fs : FS) (p : Path)
+    (hp : p.fam ≠ fam) : settle fam d f pend fs p = fs p := by
+  have hne : ∀ s, p ≠ ⟨fam, s⟩ := by
+    intro s h; apply hp; rw [h]
+  cases pend <;> simp [settle, FS.set, hne]
+
+theorem crashOps_frame (fam : Fam) (d : Dump) (f : Nat) (ops : List Op) (j : Nat) (ins : Option Nat)
+    (pend : Option Suffix) (fs : FS) (p : Path) (hp : p.fam ≠ fam) :
+    crashOps fam d f ops j ins pend fs p = fs p := by
+  induction ops generalizing fs j pend with
   | nil => rfl
   | cons o r ih =>
     cases j with
     | zero =>
       cases ins with
-      | none => rfl
-      | some k => simp only [crashOps]; exact opCrash_frame _ _ _ _ _ _ hp
+      | none => simp only [crashOps]; exact settle_frame _ _ _ _ _ _ hp
+      | some k =>
+        simp only [crashOps]
+        rw [settle_frame _ _ _ _ _ _ hp]; exact opCrash_frame _ _ _ _ _ _ hp
     | succ j => simp only [crashOps]; rw [ih, opRun_frame _ _ _ _ _ hp]
 
 theorem crashState_frame (prog : List Stmt) (fam : Fam) (d : Dump) (fs : FS) (cp : CrashPt)
     (p : Path) (hp : p.fam ≠ fam) : crashState prog fam d fs cp p = fs p :=
-  crashOps_frame _ _ _ _ _ _ _ hp
+  crashOps_frame _ _ _ _ _ _ _ _ _ hp
 
 theorem runProg_frame (prog : List Stmt) (fam : Fam) (d : Dump) (fs : FS)
     (p : Path) (hp : p.fam ≠ fam) : runProg prog fam d fs p = fs p :=
